@@ -169,9 +169,10 @@ def gen_scenario(seed, profile="general", n_ops=(3, 9)):
             if rnd.random() < 0.25:
                 kw["dr"] = True
             if rnd.random() < 0.25:
-                kw["i"] = rnd.sample(PATTERNS, rnd.randint(1, 2))
-            if rnd.random() < 0.1:
-                kw["ii"] = rnd.sample(PATTERNS, rnd.randint(1, 3))
+                # with replacement: the same pattern twice in one batch is intended
+                kw["i"] = rnd.choices(PATTERNS, k=rnd.randint(1, 3)) if rnd.random() < 0.4 else rnd.sample(PATTERNS, rnd.randint(1, 2))
+            if rnd.random() < 0.12:
+                kw["ii"] = rnd.choices(PATTERNS[:6], k=rnd.randint(1, 4))
             if rnd.random() < 0.2:
                 below = [p for p in fs.below(at)] + [d for d in fs.dirs if d and d.startswith(at + "/" if at else "")]
                 if below:
@@ -229,6 +230,96 @@ def gen_scenario(seed, profile="general", n_ops=(3, 9)):
     ops.append({"op": "verify", "at": ""})
     ops.append({"op": "diff", "at": ""})
     return sc
+
+
+def gen_nested(seed):
+    """nested histories: chains to depth 4, sibling names that are prefixes of each other, any creation order"""
+    rnd = random.Random(seed)
+    tree = {
+        "top.txt": "top",
+        "A/a.txt": "a",
+        "A/X/x.txt": "x",
+        "A/X/Y/y.txt": "y",
+        "A/X/Y/Z/z.txt": "z",
+        "A/X/Y/Z/sub/zs.txt": "zs",
+        "AB/b.txt": "b",
+        "AB/A/ba.txt": "ba",
+        "Clips/c.mov": "c",
+        "Clips_proxy/p.mov": "p",
+        "Clips_proxy/deep/q.mov": "q",
+        "Reel1/r.txt": "r1",
+        "Reel10/r.txt": "r10",
+        "plain/n.txt": "n",
+        "empty/": None,
+    }
+    for k in list(tree):
+        if rnd.random() < 0.15 and k not in ("top.txt",):
+            del tree[k]
+    cands = ["A", "A/X", "A/X/Y", "A/X/Y/Z", "AB", "Clips", "Reel1", "AB/A"]
+    dirs = set()
+    for k in tree:
+        parts = k.rstrip("/").split("/")
+        for i in range(1, len(parts) + (1 if k.endswith("/") else 0)):
+            dirs.add("/".join(parts[:i]))
+    cands = [c for c in cands if c in dirs]
+    chosen = [c for c in cands if rnd.random() < 0.55]
+    rnd.shuffle(chosen)
+    ops = []
+    t = 0
+    for c in chosen:
+        t += rnd.choice([0, 1])
+        ops.append({"op": "create", "at": c, "h": fmt_subset(rnd, (1, 2)), "now": "2026-03-01 12:00:%02d" % t, **({"n": True} if rnd.random() < 0.15 else {})})
+    t += 1
+    ops.append({"op": "create", "at": "", "h": fmt_subset(rnd, (1, 2)), "now": "2026-03-01 12:00:%02d" % t})
+    files = [k for k, v in tree.items() if v is not None]
+    for _ in range(rnd.randint(2, 6)):
+        r = rnd.random()
+        t += 1
+        now = "2026-03-01 12:00:%02d" % (t % 60)
+        if r < 0.2:
+            p = rnd.choice(files)
+            ops.append({"op": "write", "path": p, "data": "changed " + p})
+        elif r < 0.45:
+            at = rnd.choice(["", ""] + chosen)
+            below = [f for f in files if not at or f.startswith(at + "/")]
+            if below:
+                pre = len(at) + 1 if at else 0
+                k = rnd.randint(1, 2)
+                sf = [x[pre:] for x in rnd.sample(below, min(k, len(below)))]
+                if rnd.random() < 0.3:
+                    d = rnd.choice(below)[pre:]
+                    if "/" in d:
+                        sf.append(d.rsplit("/", 1)[0])
+                ops.append({"op": "create", "at": at, "h": fmt_subset(rnd, (1, 2)), "sf": sf, "now": now})
+        elif r < 0.65:
+            ops.append({"op": "create", "at": rnd.choice(["", ""] + chosen), "h": fmt_subset(rnd, (1, 2)), "now": now, **({"i": [rnd.choice(["Clips", "*.mov", "A", "plain", "Z", "Reel1"])]} if rnd.random() < 0.3 else {})})
+        elif r < 0.8:
+            ops.append({"op": rnd.choice(["verify", "diff", "verifydh"]), "at": rnd.choice(["", ""] + chosen)})
+        elif r < 0.9:
+            ops.append({"op": "info", "at": rnd.choice(["", ""] + chosen)})
+        else:
+            nm = rnd.choice(["new.txt", "A/new.txt", "A/X/Y/new.txt", "AB/new.txt", "Clips_proxy/new.txt"])
+            ops.append({"op": "write", "path": nm, "data": "new " + nm})
+            files.append(nm)
+    ops += [{"op": "verify", "at": ""}, {"op": "diff", "at": ""}, {"op": "info", "at": ""}]
+    return {"seed": seed, "profile": "nested", "root": rnd.choice(["root", "Reel"]), "tree": tree, "ops": ops}
+
+
+def gen_longhist(seed, n=None):
+    """many generations in one history"""
+    rnd = random.Random(seed)
+    tree = {"a.txt": "a", "s/b.txt": "b"}
+    n = n or rnd.randint(11, 14)
+    ops = []
+    for i in range(n):
+        op = {"op": "create", "at": "", "h": fmt_subset(rnd, (1, 2)), "now": "2026-03-01 12:%02d:%02d" % (i // 60, (i // 2) % 60)}
+        if rnd.random() < 0.2:
+            op["sf"] = ["a.txt"]
+        ops.append(op)
+        if rnd.random() < 0.15:
+            ops.append({"op": "write", "path": "n%d.txt" % i, "data": "n%d" % i})
+    ops += [{"op": "verify", "at": ""}, {"op": "info", "at": ""}, {"op": "infosf", "at": "", "file": "a.txt"}, {"op": "flatten", "at": ""}]
+    return {"seed": seed, "profile": "longhist", "root": "root", "tree": tree, "ops": ops}
 
 
 def describe(sc):
